@@ -1,7 +1,7 @@
 """C11 — modeling expressions evaluate to what their formula says."""
 import numpy as np
 from hypothesis import strategies as st
-from vlib.harness import Violation, run_given
+from vlib.harness import Violation, run_given, run_fuzz
 from vlib import ref_model as rm
 
 from cvxopt import matrix
@@ -205,6 +205,11 @@ def oracle(case, stats=None):
 def search(ctx, stats):
     for k in KNOWN:
         KNOWN[k] = ctx.known_active(k)
+    if ctx.part == "fuzz":
+        # same strategy and oracle, driven by libFuzzer on the branch coverage of cvxopt/modeling.py
+        v = run_fuzz(case_strategy(), lambda c: oracle(c, stats), ctx.seed, ctx.n(6000, 300000), stats,
+                     journal=ctx.journal)
+        return [v] if v else []
     v = run_given(case_strategy(), lambda c: oracle(c, stats), ctx.seed, ctx.n(40000, 800000), stats)
     return [v] if v else []
 
